@@ -457,7 +457,7 @@ def correspond(ctx):
     """Model (Lean driver) vs the implementation on every generated job."""
     tmpdir = tempfile.mkdtemp(prefix="pv-c10-")
     try:
-        ws = worlds(ctx, tmpdir, ctx.size(40, 400), ctx.size(2, 8), ctx.size(8, 40))
+        ws = worlds(ctx, tmpdir, ctx.size(60, 500), ctx.size(2, 8), ctx.size(12, 40))
         drv = ctx.driver()
         for w in ws:
             impl = w.run()
@@ -554,7 +554,7 @@ def judge(meta, got):
     k = ref_select(entries, meta["platform"], regu, meta["kind"] != "path")
     site = "_decode_lines"
     if k is None:
-        if got != ["keyerror"]:
+        if got not in (["keyerror"], ["logkeyerror"]):      # the caller sees KeyError either way
             if got[0] in ("tle", "unparsed"):
                 return ("other_satellite", got, "KeyError (no entry qualifies)", site)
             return ("no_keyerror", got, "KeyError (no entry qualifies)", site)
@@ -574,7 +574,7 @@ def judge(meta, got):
             q = [i for i in both if ref_select([entries[i]], meta["platform"], regu, meta["kind"] != "path") == 0]
             return ("not_first_entry" if q else "other_satellite", got, want, site)
         return ("result_fields", got, want, "Tle")
-    if got == ["keyerror"]:
+    if got in (["keyerror"], ["logkeyerror"]):
         return ("qualifying_entry_missed", got, want, site)
     return ("wrong_failure", got, want, site)
 
@@ -583,7 +583,7 @@ def oracle(ctx):
     """The property on the implementation, from the statement alone (no model)."""
     tmpdir = tempfile.mkdtemp(prefix="pv-c10o-")
     try:
-        ws = worlds(ctx, tmpdir, ctx.size(40, 400), ctx.size(2, 8), ctx.size(8, 40))
+        ws = worlds(ctx, tmpdir, ctx.size(60, 500), ctx.size(2, 8), ctx.size(12, 40))
         for w in ws:
             impl = w.run()
             for m, got in zip(w.meta, impl):
